@@ -294,3 +294,57 @@ def run(rep: Report, prog: Program, tier: str) -> None:
                 rep.fail(mk_finding(prog, PROP, "C04-DROP", recv, n, "a packet failing SRTP authentication can still be delivered", construct="srtp drop"))
     if not found:
         raise AnalysisError("try block around unprotect not found")
+
+    # ---------------- C04-DEMUX
+    rep.rule("C04-DEMUX", "first-byte demultiplexing (RFC 7983) and RTP/RTCP classification", min_instances=256 + 6)
+    chain = None
+    for n in walk_no_nested(recv.node):
+        if isinstance(n, ast.If) and any(isinstance(x, ast.Name) and x.id == "first_byte" for x in ast.walk(n.test)):
+            chain = n
+            break
+    if chain is None:
+        raise AnalysisError("_recv_next: demultiplexing on first_byte not found")
+    branches: List[Tuple[ast.expr, str]] = []
+    cur: Optional[ast.If] = chain
+    while cur is not None:
+        txt = " ".join(unparse(b) for b in cur.body)
+        kind = "dtls" if "bio_write" in txt else ("srtp" if "unprotect" in txt else "other")
+        branches.append((cur.test, kind))
+        cur = cur.orelse[0] if len(cur.orelse) == 1 and isinstance(cur.orelse[0], ast.If) else None
+    if {k for _t, k in branches} != {"dtls", "srtp"}:
+        raise AnalysisError("_recv_next: expected one DTLS and one SRTP branch in the demultiplexer")
+    me = SimpleNamespace(_rx_srtp=True)
+    for b in range(256):
+        got = "drop"
+        for test, kind in branches:
+            try:
+                if Evaluator(prog, recv.module, recv.cls, {"first_byte": b, "self": me}).ev(test):
+                    got = kind
+                    break
+            except Unknown as ex:
+                raise AnalysisError(f"cannot evaluate the demultiplexer test {unparse(test)}: {ex}")
+        want = "dtls" if 20 <= b <= 63 else ("srtp" if 128 <= b <= 191 else "drop")
+        if got == want:
+            rep.ok("C04-DEMUX", f"first byte {b}", sample=got)
+        else:
+            rep.fail(mk_finding(prog, PROP, "C04-DEMUX", recv, chain, f"a datagram whose first byte is {b} ({b:#04x}) is treated as {got}; RFC 7983 says {want}: "
+                                f"{'padded or extended ' if b & 0x30 else ''}RTP/RTCP packets would not be received", construct=f"demux class of byte {b >> 4:#x}x"))
+    is_rtcp = prog.func("rtp.is_rtcp")
+    ev_r = Evaluator(prog, is_rtcp.module, None, {})
+    forbidden = ev_r.ev(ast.Name(id="FORBIDDEN_PAYLOAD_TYPES", ctx=ast.Load()))
+    for name in ("RTCP_SR", "RTCP_RR", "RTCP_SDES", "RTCP_BYE", "RTCP_RTPFB", "RTCP_PSFB"):
+        pt = ev_r.ev(ast.Name(id=name, ctx=ast.Load()))
+        if ev_r.call_function(is_rtcp, [bytes([0x80, pt, 0, 1])]) is True:
+            rep.ok("C04-DEMUX", f"is_rtcp: {name} ({pt})", sample="classified as RTCP")
+        else:
+            rep.fail(mk_finding(prog, PROP, "C04-DEMUX", is_rtcp, is_rtcp.node, f"an RTCP packet of type {name} ({pt}) is not classified as RTCP and would be handed to the RTP path", construct=f"is_rtcp {name}"))
+    # payload types aiortc itself sends: the static audio types and the dynamic range (the property is about two aiortc peers;
+    # 64..71 / 77..95 are merely "to be avoided" by RFC 5761 and are not used)
+    dynamic = ev_r.ev(ast.Name(id="DYNAMIC_PAYLOAD_TYPES", ctx=ast.Load()))
+    sendable = [pt for pt in list(range(0, 35)) + list(dynamic) if pt not in forbidden]
+    bad = [(m, pt) for m in (0, 1) for pt in sendable if ev_r.call_function(is_rtcp, [bytes([0x80, (m << 7) | pt, 0, 1])])]
+    if bad:
+        rep.fail(mk_finding(prog, PROP, "C04-DEMUX", is_rtcp, is_rtcp.node, f"RTP packets with (marker, payload type) in {bad[:4]} are classified as RTCP although aiortc negotiates these payload types",
+                            construct="is_rtcp on RTP"))
+    else:
+        rep.ok("C04-DEMUX", "is_rtcp: no RTP packet with an allowed payload type is classified as RTCP", sample=f"{2 * len(sendable)} (marker, payload type) pairs")
